@@ -8,6 +8,7 @@ loader.install()
 from symrun import core  # noqa: E402
 from symrun.core import eng  # noqa: E402
 from symrun import values as V  # noqa: E402
+from symrun import regex as RX  # noqa: E402
 from symrun.values import SymEnum, SymBytes, SymInt, SymBool, fresh_enum, fresh_int, sym_and, sym_or, sym_not, zbyte  # noqa: E402
 import z3  # noqa: E402
 from harness.composed import Sim, honest_policy, replay_actions, THIRD  # noqa: E402
@@ -19,7 +20,11 @@ CONFIGS = {
     "set-set": dict(modes=("set", "set"), nmsg=(2, 2)),
     "alloc-input": dict(modes=("allocate", "input"), nmsg=(1, 2)),
     "set-set-starved": dict(modes=("set", "set"), nmsg=(1, 1), canon="starveA"),
+    # three phases from one side, all sent before anything is delivered: an authentic later phase can be delivered first (held back),
+    # with more phases still to come
+    "set-set-burst3": dict(modes=("set", "set"), nmsg=(0, 3), canon="burst"),
 }
+RELABEL_ONLY = {"set-set-burst3"}
 THOROUGH_CONFIGS = {
     "alloc-input-starvedB": dict(modes=("allocate", "input"), nmsg=(1, 1), canon="starveB"),
     "set-set-burst": dict(modes=("set", "set"), nmsg=(2, 1), canon="burst"),
@@ -39,7 +44,8 @@ def pass_hex(x):
 def shadows():
     iso = V.sym_isinstance
     return loader.shadow((RV, "hexstr_to_bytes", pass_hex), (RV, "isinstance", iso), (MB, "isinstance", iso), (ORD, "isinstance", iso),
-                         (KEY, "isinstance", iso), (RCV, "isinstance", iso), (BOSS, "isinstance", iso), (UTIL, "isinstance", iso))
+                         (KEY, "isinstance", iso), (RCV, "isinstance", iso), (BOSS, "isinstance", iso), (UTIL, "isinstance", iso),
+                         (BOSS, "re", RX.SymReModule()), (BOSS, "int", V.sym_int))
 
 
 def msgs(c):
@@ -195,8 +201,15 @@ class Tamper(Job):
             assert replay_actions(sim, canon[:p])
             done = 0
             for j in range(self.ninj):
+                na0 = sum(self._nacc.values())
+                nm0 = sum(len(msgs(c)) + len([e for e in c.ev if e[0] == "versions"]) for c in sim.cl)
                 if self.inject(sim, victim, script, j):
                     done += 1
+                    if symbolic and sum(self._nacc.values()) > na0:
+                        # vacuity witness: an injected message (authentic, honestly labelled, merely early/again) got through decryption ...
+                        eng().note("nt:injection-accepted")
+                        if sum(len(msgs(c)) + len([e for e in c.ev if e[0] == "versions"]) for c in sim.cl) > nm0:
+                            eng().note("nt:injection-delivered")        # ... and all the way to the application
             if not done:
                 if symbolic:
                     raise core._Abort()
@@ -329,7 +342,12 @@ def jobs(tier):
         step = 3 if thorough else 6
         for lo in range(0, n + 1, step):
             J.append(Tamper(cfg, lo, min(lo + step, n + 1), 1, "relabel"))
-            J.append(Tamper(cfg, lo, min(lo + step, n + 1), 1, "flip"))
+            if lo <= 18 < lo + step and cfg in CONFIGS:
+                # this prefix range of the honest run contains checkpoints where a stored authentic message is still undelivered: delivering it
+                # by injection must be accepted and reach the application (otherwise the exploration never exercises the accepting path)
+                J[-1].must_reach = ("nt:injection-accepted", "nt:injection-delivered")
+            if cfg not in RELABEL_ONLY:
+                J.append(Tamper(cfg, lo, min(lo + step, n + 1), 1, "flip"))
         if thorough:
             for lo in range(0, n + 1):
                 J.append(Tamper(cfg, lo, lo + 1, 2, "relabel"))
